@@ -290,6 +290,43 @@ Lemma d_expr_fn2 m name x y c pos size v w : d_expr m x c pos size = Ok v -> d_e
   d_expr m (Function name [x; y]) c pos size = call_fn name [none_to_empty v; none_to_empty w] c pos size.
 Proof. intros H1 H2. cbn [d_expr]. rewrite H1, H2. reflexivity. Qed.
 
+(* ---- variadic argument lists (concat) *)
+Lemma go_hazard_false (h : expr -> bool) : forall l,
+  (fix go (l : list expr) : bool := match l with [] => false | x :: r => h x || go r end) l = false ->
+  Forall (fun x => h x = false) l.
+Proof. induction l as [|x l IH]; intro H; constructor; apply orb_false_elim in H as [H1 H2]; auto. Qed.
+Lemma go_bound_true (b : expr -> bool) : forall l,
+  (fix go (l : list expr) : bool := match l with [] => true | x :: r => b x && go r end) l = true ->
+  Forall (fun x => b x = true) l.
+Proof. induction l as [|x l IH]; intro H; constructor; apply andb_prop in H as [H1 H2]; auto. Qed.
+Lemma go_tys_some (t : expr -> option ty) : forall l,
+  forallb (fun t => match t with Some _ => true | None => false end)
+          ((fix go (l : list expr) : list (option ty) := match l with [] => [] | x :: r => t x :: go r end) l) = true ->
+  Forall (fun x => exists a, t x = Some a) l.
+Proof.
+  induction l as [|x l IH]; intro H; constructor; cbn in H; apply andb_prop in H as [H1 H2]; auto.
+  destruct (t x); [eauto|discriminate].
+Qed.
+Lemma go_tys_length (t : expr -> option ty) : forall l,
+  length ((fix go (l : list expr) : list (option ty) := match l with [] => [] | x :: r => t x :: go r end) l) = length l.
+Proof. induction l as [|x l IH]; cbn; [reflexivity|f_equal; exact IH]. Qed.
+Lemma all_some_map_Some {A} (l : list A) : all_some (map Some l) = Some l.
+Proof. induction l as [|x l IH]; cbn; [reflexivity|rewrite IH; reflexivity]. Qed.
+Lemma go_eval_agree (f : expr -> res pyval) (g : expr -> option rval) : forall l,
+  Forall (fun x => exists v rv, f x = Ok v /\ g x = Some rv /\ to_str rv = Some (py_to_string (none_to_empty v))) l ->
+  exists vs rvs,
+    (fix go (l : list expr) : res (list pyval) :=
+       match l with [] => Ok [] | x :: r => bind (f x) (fun v => bind (go r) (fun vs => Ok (v :: vs))) end) l = Ok vs /\
+    all_some ((fix go (l : list expr) : list (option rval) := match l with [] => [] | x :: r => g x :: go r end) l) = Some rvs /\
+    map to_str rvs = map (fun v => Some (py_to_string (none_to_empty v))) vs /\ length rvs = length l.
+Proof.
+  induction l as [|x l IH]; intro H; [exists [], []; auto|]. inversion H as [|? ? (v & rv & Hf & Hg & Hs) Hl]; subst.
+  destruct (IH Hl) as (vs & rvs & E1 & E2 & E3 & E4). exists (v :: vs), (rv :: rvs).
+  rewrite Hf, Hg. cbn [bind all_some]. rewrite E1, E2. cbn. rewrite Hs, E3, E4. auto.
+Qed.
+Lemma call_concat l c pos size : call_fn FN_concat l c pos size = Ok (PStr (concat (map py_to_string l))).
+Proof. reflexivity. Qed.
+
 Lemma expr_agrees m e :
   forall t c pos size, ty_of e = Some t -> hazard m e c = false -> bound m e = true ->
   exists v rv, d_expr m e c pos size = Ok v /\ r_expr m e c pos size = Some rv /\ vrel t v rv.
@@ -355,7 +392,28 @@ Proof.
       - exists (PBool (truthy (none_to_empty v))), (RBool (to_bool rv)).
         split; [rewrite (d_expr_fn1 _ _ _ _ _ _ _ Hd); reflexivity|]. split; [cbn [r_expr]; rewrite Hr; reflexivity|].
         rewrite Htb. constructor. }
-    destruct (str_is name FN_contains || str_is name FN_starts_with) eqn:E3; [|discriminate].
+    destruct (str_is name FN_contains || str_is name FN_starts_with) eqn:E3;
+      [|destruct (str_is name FN_concat) eqn:E4; [|discriminate]; apply str_is_eq in E4; subst name; clear E1 E2 E3;
+        match type of Hty with context [forallb ?F ?T] =>
+          destruct (forallb F T) eqn:Ety; [|destruct T as [|? [|? ?]]; discriminate Hty] end;
+        assert (Hlen : 2 <= length args);
+        [ match type of Ety with forallb _ ?T = _ => assert (HL : length T = length args) by apply go_tys_length;
+            destruct T as [|? [|? ?]]; try discriminate Hty; cbn in HL; lia end
+        | assert (t = TStr) by (match type of Hty with match ?T with _ => _ end = _ => destruct T as [|? [|? ?]] end; inversion Hty; reflexivity);
+          subst t;
+          pose proof (go_tys_some _ _ Ety) as Ft; pose proof (go_hazard_false _ _ Hha) as Fh; pose proof (go_bound_true _ _ Hb) as Fb;
+          assert (Fall : Forall (fun x => exists v rv, d_expr m x c pos size = Ok v /\ r_expr m x c pos size = Some rv /\
+                                                     to_str rv = Some (py_to_string (none_to_empty v))) args);
+          [ rewrite Forall_forall in *; intros x Hx; destruct (Ft x Hx) as (a & Ha);
+            destruct (IH x Hx a c pos size Ha (Fh x Hx) (Fb x Hx)) as (v & rv & Hd & Hr & Hv);
+            exists v, rv; repeat split; auto; eapply str_value; eauto
+          | destruct (go_eval_agree (fun x => d_expr m x c pos size) (fun x => r_expr m x c pos size) args Fall)
+              as (vs & rvs & E1 & E2 & E3 & E4); cbn beta in E1, E2;
+            exists (PStr (concat (map (fun v => py_to_string (none_to_empty v)) vs))), (RStr (concat (map (fun v => py_to_string (none_to_empty v)) vs)));
+            split; [cbn [d_expr]; rewrite E1; cbn [bind]; rewrite call_concat, map_map; reflexivity|];
+            split; [|apply vr_str];
+            cbn [r_expr]; rewrite E2; destruct rvs as [|r1 [|r2 rvs]]; [cbn in E4; lia|cbn in E4; lia|];
+            unfold r_call; cbn [str_is]; rewrite E3, <- map_map, all_some_map_Some; reflexivity ] ] ].
     destruct args as [|x [|y [|z args]]]; try (cbn in Hty; repeat match type of Hty with context [ty_of ?z] => destruct (ty_of z) end; discriminate).
     destruct (ty_of x) as [tx|] eqn:Hx; [|discriminate]. destruct (ty_of y) as [ty'|] eqn:Hy; [|discriminate].
     inversion Hty; subst.
